@@ -22,6 +22,7 @@ Definition chars (s : str) : enc := map Ch s.
 Definition code (i : item) : N := match i with Ch c => c | _ => 1114111 end.
 Definition codes (e : enc) : str := map code e.
 Definition is_ch (i : item) : bool := match i with Ch _ => true | _ => false end.
+Definition is_code (c : N) (i : item) : bool := match i with Ch x => x =? c | _ => false end.
 Definition sp_item (i : item) : bool := match i with Ch c => is_space c | _ => false end.
 
 Fixpoint lstrip_i (e : enc) : enc :=
@@ -31,7 +32,7 @@ Definition strip_i (e : enc) : enc := rstrip_i (lstrip_i e).
 
 (* str.removesuffix('\n') *)
 Definition drop_last_nl (e : enc) : enc :=
-  match rev e with Ch 10 :: r => rev r | _ => e end.
+  match rev e with i :: r => if is_code 10 i then rev r else e | [] => e end.
 
 Fixpoint join_i (sep : enc) (l : list enc) : enc :=
   match l with [] => [] | [x] => x | x :: r => x ++ sep ++ join_i sep r end.
@@ -49,14 +50,13 @@ Definition unexpanded_arg (args : list enc) : enc := chars s_lbrace3 ++ join_i v
 Definition unexpanded_link (args : list enc) : enc := chars s_lsq2 ++ join_i vbar args ++ chars s_rsq2.
 
 (* add_newline_to_expansion: text starting with * ; : # or {| gets a newline prepended *)
-Definition add_newline (e : enc) : enc :=
+Definition starts_block (e : enc) : bool :=
   match e with
-  | Ch c :: r =>
-    if (c =? 42) || (c =? 59) || (c =? 58) || (c =? 35) then Ch 10 :: e
-    else if (c =? 123) then match r with Ch 124 :: _ => Ch 10 :: e | _ => e end
-    else e
-  | _ => e
+  | Ch c :: r => (c =? 42) || (c =? 59) || (c =? 58) || (c =? 35) ||
+                 ((c =? 123) && match r with i :: _ => is_code 124 i | [] => false end)
+  | _ => false
   end.
+Definition add_newline (e : enc) : enc := if starts_block e then Ch 10 :: e else e.
 
 (** keys and argument maps (dict: a later binding of the same key wins) *)
 Definition argmap := list (key * enc).
@@ -82,13 +82,11 @@ Definition show_key (k : key) : str :=
 Fixpoint split_eq_i (e : enc) : option (enc * enc) :=
   match e with
   | [] => None
-  | i :: r => match i with
-              | Ch 61 => Some ([], r)
-              | _ => match split_eq_i r with
-                     | Some (a, b) => Some (i :: a, b)
-                     | None => None
-                     end
-              end
+  | i :: r => if is_code 61 i then Some ([], r)
+              else match split_eq_i r with
+                   | Some (a, b) => Some (i :: a, b)
+                   | None => None
+                   end
   end.
 
 Definition split_named_i (e : enc) : option (enc * enc) :=
@@ -244,14 +242,12 @@ Section Expander.
   Fixpoint split_switch (e : enc) : option (enc * enc) :=
     match e with
     | [] => None
-    | i :: r => match i with
-                | Ch 61 => Some ([], r)
-                | Ch 60 => None
-                | _ => match split_switch r with
-                       | Some (a, b) => Some (i :: a, b)
-                       | None => None
-                       end
-                end
+    | i :: r => if is_code 61 i then Some ([], r)
+                else if is_code 60 i then None
+                else match split_switch r with
+                     | Some (a, b) => Some (i :: a, b)
+                     | None => None
+                     end
     end.
 
   (** Mutually recursive on fuel; None = fuel exhausted or a construct outside
@@ -433,7 +429,7 @@ Section Expander.
           | None => None
           | Some k =>
             match expand_recurse f (stk ++ [FArgVal k]) true v with
-            | Some v' => build_args f stk rest num (am_set ht k v')
+            | Some v' => build_args f stk rest num (am_set ht k (strip_i v'))
             | None => None
             end
           end
